@@ -9,7 +9,8 @@ capacity / value obligations, while the registration frame keeps the deregistrat
   R1 bounded   every `_put` (in lookup or in the task body) is followed, atomically and on every path, by the capacity test and (when over
                capacity) an eviction; `_over_capacity` is true whenever more than num_slots keys are held; `_evict_oldest` always removes one
                key; `_put` / `_remove` update the three maps together and in the order the SortedSet key function (reads _expiry_time)
-               requires; no other method mutates the maps; the maps are per-instance (created in __init__)
+               requires; no other method mutates the maps; the maps are per-instance (created in __init__); lookup files no per-key state that
+               decides an outcome (branch / returned / raised value) in a table of its own unless `_remove` drops the key from it too
   R2 fresh     expiry = monotonic clock + lifetime_ns; the cached value is returned only after, atomically, the expiry of the same key
                was compared with the *same* clock and the expired entry removed; every value returned by lookup / stored by `_put` is the
                result of the awaited load (of this call or of the shared task) -- reaching definitions over all returns and `_put`s: a
@@ -19,11 +20,19 @@ capacity / value obligations, while the registration frame keeps the deregistrat
                called only there (or awaited inside the registered task body), a lookup that finds a registered task starts no load, and
                the registration is removed on every exit (normal, error, cancellation) of the REGISTERING frame or by a done-callback
                attached before any suspension; a removal that lives only inside the registered task's own body does not run when the
-               task is cancelled before its first step (possible whenever some await of the shared task is unshielded)
+               task is cancelled before its first step (possible whenever some await of the shared task is unshielded); the registering frame
+               removes the registration NOT BEFORE the task has ended: every CFG path registration -> removal traverses the normal completion of
+               an await of the task or the exceptional exit of an unshielded one (the exceptional exit of a shielded await -- caller cancelled,
+               wait_for timeout -- or of a foreign suspension point leaves the task running, and unregistering it lets the next lookup load again)
   R4 isolation every `await` of a task read from the shared `_futures` map goes through asyncio.shield: otherwise cancelling one
                caller cancels the shared task and the other callers fail although neither their load failed nor they were cancelled
   R5 use site  gear/auth.py (session cache) and batch/front_end.py (JAR cache) build the cache with positive constant lifetime /
                capacity; auth.py only ever calls `.lookup` on it; constructor options are resolved per site
+  R6 own fail  every `raise` statement of lookup (helpers inlined) / the task body is classified by the provenance of the raised object (reaching
+               definitions, tuple unpacking, .get/[...] reads) and by what its guards read: a re-raise of the exception being handled is the
+               lookup's own failure; an object read out of instance state that some method fills is a REMEMBERED failure; a fresh exception
+               whose guard reads state written on the lookup path fails the lookup because of other lookups (circuit breaker, admission limit);
+               the shutdown guard (state written only off the lookup path) is outside the property; anything else is declined
 Does not decide: which entry is evicted (any one suffices for the bound), behaviour during shutdown(), the loader's own errors.
 """
 from __future__ import annotations
@@ -43,7 +52,8 @@ META = dict(
          'await-atomicity, table evaluation of the capacity and expiry comparisons over the order relation, writer/writer agreement of the three '
          'maps and of the clock used by writer and reader, reaching-definition provenance of every returned / stored value, single-flight '
          'registration atomicity and removal on every exit of the registering frame (incl. the set of finally/except blocks that run on '
-         'CancelledError, done-callbacks, and the never-started-task case for removals inside the task body), a syntactic closure over every '
+         'CancelledError, done-callbacks, the never-started-task case for removals inside the task body, and registration-lifetime >= task-lifetime on the '
+         'exceptional exits of shielded awaits), provenance of every raised object and of the state its guards read, a syntactic closure over every '
          'await of a shared task, constant propagation of the constructor options used at the session / JAR sites.  Not a proof over schedules.',
     note='Trusted: CPython ast; engines/pyfacts CFG; asyncio switches only at await; awaiting a Task from a cancelled coroutine cancels that Task '
          'unless wrapped in asyncio.shield; a Task cancelled before its first step never runs its body. Not decided: eviction policy, shutdown().',
@@ -790,6 +800,8 @@ def _r3_one(ctx: Ctx, v: View, G: pf.Node, unshielded) -> None:
                     cleaned = any(_stmt_deregs(st) for _, b in blocks for st in b)
                     ctx.check(cleaned or callback_ok, 'R3', consd + f'::on cancellation of `{pf.nsrc(a)}`',
                               'when the loader is cancelled at this await no finally/except removes the registration', m.path, a.lineno)
+        if frame_dels:
+            _r3_not_before_task_end(ctx, v, G, frame_dels, consd)
         raising = [x for x in frame_dels if isinstance(x.ast, ast.Delete) or ((c2 := af.node_is_call(x, f'{FUT}.pop')) is not None and len(c2.args) == 1)]
         if raising and body_dels:
             ctx.bad('R3', consd + '::once', f'the registration of `{k}` is removed inside the task body {body.name} (`{body_dels[0].text()}`) and again by the registering frame '  # type: ignore[union-attr]
@@ -798,6 +810,7 @@ def _r3_one(ctx: Ctx, v: View, G: pf.Node, unshielded) -> None:
         return
     if callback_ok:
         ctx.ok('R3', consd, 'done-callback attached before any suspension removes the registration (runs even if the task never starts)')
+        ctx.ok('R3', consd + '::not before the task ends', 'a done-callback runs when the task has ended, not earlier')
         return
     # (iii) only the registered task's own body removes the registration
     assert body is not None
@@ -826,6 +839,61 @@ def _r3_one(ctx: Ctx, v: View, G: pf.Node, unshielded) -> None:
                 f'failed.  Remove the registration in the registering frame (try/finally around its await) or with task.add_done_callback', m.path, G.lineno)
     else:
         ctx.ok('R3', consd, f'removed in the task body {body.name}; every await of the shared task is shielded, so no caller can cancel it before it starts')
+        ctx.ok('R3', consd + '::not before the task ends', f'removed by the task itself on leaving {body.name}')
+
+
+def _node_awaits(n: pf.Node) -> List[ast.Await]:
+    return [a for e in pf.node_exprs(n) for a in pf.walk_shallow(e) if isinstance(a, ast.Await)]
+
+
+def _r3_not_before_task_end(ctx: Ctx, v: View, G: pf.Node, frame_dels: List[pf.Node], consd: str) -> None:
+    """The registration is what makes a later lookup JOIN the running load instead of starting another one, so the registering frame may
+    remove it only once the registered task has ended.  Decided on the CFG: a path registration -> removal is harmless only if it traverses
+    an edge on which the task is known to have ended -- the normal completion of an await of the task, or the exceptional exit of an
+    UNSHIELDED await of it (a coroutine cancelled while awaiting a Task gets its CancelledError only after that Task has finished).  The
+    exceptional exit of a shielded await of the task (caller cancelled, wait_for timeout) or of any other suspension point leaves the task
+    running.  Exception edges out of plain synchronous statements are not followed (an internal error, not a schedule)."""
+    cfg, k, m = v.cfg, v.k, v.mi
+    shield_of = {id(a): sh for name, _, _, a, sh in _fut_awaits(v) if name == 'lookup'}
+
+    def task_awaits(n: pf.Node) -> List[Tuple[ast.Await, bool]]:
+        return [(a, shield_of[id(a)]) for a in _node_awaits(n) if id(a) in shield_of] if n.ast is not None else []
+
+    def edge_ok(a: pf.Node, b: pf.Node, lab: str) -> bool:
+        ta = task_awaits(a)
+        if lab == 'exc':
+            if a.ast is None or a.kind == 'raise':
+                return True  # continuation of an exception already in flight (finally copies, re-raise in a handler)
+            if not pf.node_has_await(a):
+                return False
+            return not ta or any(sh for _, sh in ta)
+        return not ta
+
+    cons = consd + '::not before the task ends'
+    for dn in frame_dels:
+        p = cfg.path_avoiding(G, lambda n, dn=dn: n is dn, lambda n: False, edge_ok=edge_ok)
+        if p is None:
+            continue
+        cancels = [x for x in p if x.ast is not None and any(isinstance(c.func, ast.Attribute) and c.func.attr == 'cancel' for c in pf.node_calls(x))]
+        ctx.need(not cancels, f'{cons}: `{cancels[0].text() if cancels else ""}` cancels something on the way to the removal (task torn down by hand: not analysed)')
+        exits = [(x, y) for x, y in zip(p, p[1:]) if any(lab == 'exc' and b is y for b, lab in x.succ) and x.ast is not None and pf.node_has_await(x)]
+        if exits:
+            x = exits[0][0]
+            ta = task_awaits(x)
+            if ta:
+                why = (f'`{pf.nsrc(ta[0][0])}` awaits the shared task through asyncio.shield, so when the lookup that registered the load is cancelled there (client hangs up; '
+                       f'or a wait_for around it times out) the await raises while the load task KEEPS RUNNING')
+            else:
+                why = (f'`{x.text()}` is a suspension point between the registration and the removal that does not wait for the task: when the lookup is cancelled there '
+                       f'the load task keeps running (nobody cancels it)')
+        else:
+            why = 'the removal is reached without waiting for the registered task at all, the load task is still running'
+        ctx.bad('R3', cons, f'{why}, and `{dn.text()}` removes the registration of the running task.  The next lookup({k}) finds neither a cached value nor a load in flight '
+                f'and starts a SECOND load of {k} while the first is still in flight (L1=lookup({k}) starts load #1; L1 is cancelled; L2=lookup({k}) starts load #2; a waiter that '
+                f'joined #1 and L2 are pending together but served by two different loads; repeat for #3...).  The registration must live as long as the task: remove it with '
+                f'task.add_done_callback(...) or at the end of the task body, not in the frame of a caller that can leave early', m.path, dn.lineno)
+        return
+    ctx.ok('R3', cons, 'every path registration -> removal passes the end of the registered task')
 
 
 def _r4_shield(ctx: Ctx, v: View) -> None:
@@ -843,6 +911,244 @@ def _r4_shield(ctx: Ctx, v: View) -> None:
                    'with it, and every concurrent lookup waiting on the same key gets CancelledError although it was not cancelled and its load did not fail')
         ctx.check(shielded, 'R4', cons, msg, mm.path, a.lineno)
     ctx.need(n >= 1, 'no await of a task read from _futures found (idiom not recognised)')
+
+
+# --------------------------------------------------------------------------------------
+# instance state other than the three maps / _futures: side tables (R1) and remembered failures (R6)
+# --------------------------------------------------------------------------------------
+
+MUTATORS = ('add', 'remove', 'discard', 'pop', 'clear', 'update', 'popitem', 'setdefault', 'append', 'appendleft', 'extend', 'insert', 'move_to_end',
+            '__setitem__', '__delitem__')
+LOOKUP_PRIMS = ('_put', '_remove', '_evict_oldest', '_over_capacity')
+
+
+def _self_base(e: ast.AST) -> Tuple[Optional[str], Optional[ast.AST], int]:
+    """Descend `X[...]`, `X.m(...)`, `X.a` to the object the value is read from / written into:
+    ('attr', None, depth) for `self.attr...`, (None, <Name>, depth) for a local, (None, None, depth) otherwise."""
+    cur, depth = e, 0
+    while True:
+        if isinstance(cur, ast.Subscript):
+            cur, depth = cur.value, depth + 1
+        elif isinstance(cur, ast.Call) and isinstance(cur.func, ast.Attribute):
+            cur, depth = cur.func.value, depth + 1
+        elif isinstance(cur, ast.Attribute):
+            if isinstance(cur.value, ast.Name) and cur.value.id == 'self':
+                return cur.attr, None, depth
+            cur, depth = cur.value, depth + 1
+        elif isinstance(cur, ast.Name):
+            return None, cur, depth
+        else:
+            return None, None, depth
+
+
+def _state_writes(fn: ast.AST) -> List[Tuple[str, str, ast.AST, ast.AST]]:
+    """(attr, how, written expression, statement) for every write into instance state `self.<attr>` in fn:
+    how = 'bind' (self.X = / del self.X), 'item' (self.X[..] = / del self.X[..] / self.X.y = ..), a mutator method name."""
+    out: List[Tuple[str, str, ast.AST, ast.AST]] = []
+    for st in pf.walk_shallow(fn):
+        tg: List[ast.AST] = []
+        if isinstance(st, ast.Assign):
+            tg = list(st.targets)
+        elif isinstance(st, (ast.AugAssign, ast.AnnAssign)):
+            tg = [st.target] if not (isinstance(st, ast.AnnAssign) and st.value is None) else []
+        elif isinstance(st, ast.Delete):
+            tg = list(st.targets)
+        elif isinstance(st, ast.Call) and isinstance(st.func, ast.Attribute) and st.func.attr in MUTATORS:
+            attr, _, _ = _self_base(st.func.value)
+            if attr is not None:
+                out.append((attr, st.func.attr, st, st))
+        flat: List[ast.AST] = []
+        for t in tg:
+            flat += list(t.elts) if isinstance(t, (ast.Tuple, ast.List)) else [t]
+        for t in flat:
+            if isinstance(t, (ast.Subscript, ast.Attribute)):
+                attr, _, depth = _self_base(t)
+                if attr is not None:
+                    out.append((attr, 'bind' if depth == 0 else 'item', t, st))
+    return out
+
+
+def _self_reads(e: ast.AST, methods: Set[str]) -> Tuple[Set[str], Set[str]]:
+    """(instance attributes read in e, same-class methods called in e)"""
+    called = {x.func.attr for x in ast.walk(e) if isinstance(x, ast.Call) and isinstance(x.func, ast.Attribute) and isinstance(x.func.value, ast.Name)
+              and x.func.value.id == 'self' and x.func.attr in methods}
+    reads = {x.attr for x in ast.walk(e) if isinstance(x, ast.Attribute) and isinstance(x.value, ast.Name) and x.value.id == 'self' and isinstance(x.ctx, ast.Load)}
+    return reads - called, called
+
+
+class _ClassState:
+    """who writes which instance attribute (on the class as specialised for one option configuration)"""
+
+    def __init__(self, v: View):
+        self.methods = {f.name: f for f in v.cls.body if isinstance(f, (ast.FunctionDef, ast.AsyncFunctionDef))}
+        self.writers: Dict[str, List[Tuple[str, str, ast.AST, ast.AST]]] = {}  # attr -> (method, how, expr, stmt)
+        for name, f in self.methods.items():
+            for attr, how, e, st in _state_writes(f):
+                self.writers.setdefault(attr, []).append((name, how, e, st))
+        self.v = v
+
+    def on_path(self, meth: str) -> bool:
+        return _on_loader_path(self.v, meth) or meth in LOOKUP_PRIMS
+
+    def filled_by(self, attr: str) -> List[Tuple[str, str, ast.AST, ast.AST]]:
+        """writes outside __init__ that can put something into the attribute (removals do not)"""
+        return [w for w in self.writers.get(attr, []) if w[0] != '__init__' and not isinstance(w[3], ast.Delete)
+                and w[1] not in ('remove', 'discard', 'pop', 'clear', 'popitem', '__delitem__')]
+
+
+def _r1_side_tables(ctx: Ctx, v: View, cs: _ClassState) -> None:
+    """Per-key state that lookups file OUTSIDE the three maps and consult again is cache content too (remembered failures, negative entries,
+    per-key deadlines).  `_over_capacity` counts, and `_evict_oldest`/`_remove` drop, only what is in the three maps: such a table is bounded
+    only if `_remove` drops the key from it as well (then it never holds a key the index does not hold)."""
+    rem = af.method(v.m, v.cls, '_remove')
+    kr = rem.args.args[1].arg if len(rem.args.args) == 2 else None
+    known = {mp[5:] for mp in MAPS} | {FUT[5:]}
+    seen: Set[str] = set()
+    judged: Set[str] = set()
+    for name, mm, fn, cfg, k in v.roots():
+        for attr, how, e, st in _state_writes(fn):
+            if attr in known or attr in seen:
+                continue
+            keyed = (how == 'item' and isinstance(e, ast.Subscript) and not isinstance(st, ast.Delete) and _self_base(e.value)[2] == 0) or \
+                    (how in ('add', 'setdefault', '__setitem__', 'append', 'update') and _self_base(e.func.value)[2] == 0)  # type: ignore[attr-defined]
+            if not keyed:
+                continue
+            kexpr = e.slice if isinstance(e, ast.Subscript) else (e.args[0] if e.args else None)  # type: ignore[attr-defined]
+            if kexpr is None or k not in pf.names_in(pf.expand_locals(fn, kexpr)):
+                continue  # not filed per lookup key
+            seen.add(attr)
+            # does the table decide an outcome?  read by a branch condition (through single-definition locals) or by a returned / raised value
+            consulted = []
+            for _, _, rfn, rcfg, _ in v.roots():
+                for t in rcfg.nodes:
+                    if t.ast is None or t.kind not in ('test', 'return', 'raise'):
+                        continue
+                    ex = pf.expand_locals(rfn, t.ast) if t.kind == 'test' else t.ast
+                    if attr in _self_reads(ex, set(cs.methods))[0]:
+                        consulted.append(t)
+            if not consulted:
+                continue  # bookkeeping (metrics, locks): no branch, returned or raised value of lookup reads it
+            judged.add(attr)
+            cons = f'{F}::{CLS}.{name}::self.{attr} (per-key state outside the three maps)'
+            own_bound = [w for w in cs.writers.get(attr, []) if w[1] in ('clear', 'popitem')] or \
+                [x for f in cs.methods.values() for x in ast.walk(f) if isinstance(x, ast.Call) and pf.dotted(x.func) == 'len' and x.args and pf.nsrc(x.args[0]) == f'self.{attr}']
+            ctx.need(not own_bound, f'{cons}: the table has a size test / clear of its own (bound not analysed)')
+            dropped = kr is not None and any(w[0] == '_remove' and (isinstance(w[3], ast.Delete) or w[1] in ('pop', 'discard', 'remove', '__delitem__'))
+                                             and kr in pf.names_in(w[2]) and _top_level_unconditional(rem, w[3], v.m) for w in cs.writers.get(attr, []))
+            ctx.check(dropped, 'R1', cons,
+                      f'`{pf.nsrc(st)}` in {name} files per-key state in self.{attr}, which lookup consults again, but `_remove` never drops the key from it and `_over_capacity` '
+                      f'does not count it: the table is not covered by num_slots.  Every distinct key that gets an entry and is not looked up again stays for ever '
+                      f'(num_slots+N distinct keys -> the cache object holds state for num_slots+N keys), an unbounded number of entries', mm.path, getattr(st, 'lineno', 0))
+    if not judged:
+        ctx.ok('R1', f'{F}::{CLS}::no per-key state outside the three maps', 'lookup (with helpers / task body) files nothing per key that decides an outcome besides '
+               '_cache/_expiry_time/_keys_by_expiry/_futures' + (f' (bookkeeping only: {sorted(seen)})' if seen else ''))
+
+
+def _value_sources(fn: pf.FuncDef, cfg: pf.CFG, use: pf.Node, e: ast.AST, cs: _ClassState, depth: int = 4) -> List[Tuple[str, str]]:
+    """Where can the object `e` evaluates to at `use` come from?  ('except', _) the exception being handled; ('state', attr) read out of
+    instance state; ('fresh', _) constructed here by calling something that is not a method/attribute of the cache; ('unknown', text)."""
+    out: List[Tuple[str, str]] = []
+
+    def from_expr(x: ast.AST, at: pf.Node, top: bool) -> None:
+        attr, local, dp = _self_base(x)
+        if attr is not None:
+            out.append(('unknown', f'self.{attr}(...)') if attr in cs.methods else ('state', attr))
+        elif local is not None and (dp > 0 or not top) and depth > 0:
+            out.extend(_value_sources(fn, cfg, at, local, cs, depth - 1))
+        elif top and isinstance(x, ast.Call) and pf.dotted(x.func) is not None:
+            out.append(('fresh', pf.nsrc(x)))
+        else:
+            out.append(('unknown', pf.nsrc(x)))
+
+    for o in cf.origins(fn, cfg, use, e):
+        if o.kind == 'except':
+            out.append(('except', o.text()))
+        elif o.kind in ('subscript', 'call'):
+            from_expr(o.expr, o.node, True)  # type: ignore[arg-type]
+        elif o.kind == 'other' and isinstance(o.expr, (ast.Assign, ast.AnnAssign)) and o.expr.value is not None:
+            val = o.expr.value  # tuple unpacking: `deadline, exc = self._failed[k]`
+            for part in (val.elts if isinstance(val, (ast.Tuple, ast.List)) else [val]):
+                from_expr(part, o.node, False)
+        elif o.kind == 'other' and isinstance(o.expr, ast.Attribute):
+            from_expr(o.expr, o.node, True)
+        elif o.kind == 'free':
+            out.append(('fresh', o.text()))  # a global: an exception class raised without arguments
+        else:
+            out.append(('unknown', o.text()))
+    return out
+
+
+def _r6_own_failure(ctx: Ctx, v: View, cs: _ClassState) -> None:
+    """A lookup may fail only with what its own (shared) load raised or with its own cancellation.  Those reach the caller by propagation
+    through the awaits, or through a re-raise inside the handler that caught them.  Every `raise` statement of lookup (helpers inlined) and of
+    the task body is therefore classified by the provenance of the raised object and by what its guards read."""
+    for name, mm, fn, cfg, k in v.roots():
+        par = mm.parents()
+        for R in af.stmt_nodes(cfg, lambda n: n.kind == 'raise' and isinstance(n.ast, ast.Raise)):
+            cons = f'{F}::{CLS}.{name}::{R.text()}'
+            cur: Optional[ast.AST] = R.ast
+            handler = None
+            while cur is not None and cur is not fn and handler is None:
+                cur = par.get(cur)
+                if isinstance(cur, ast.ExceptHandler):
+                    handler = cur
+            exc = R.ast.exc  # type: ignore[union-attr]
+            if exc is None:
+                ctx.need(handler is not None, f'{cons}: bare raise outside a handler')
+                ctx.ok('R6', cons, 're-raises the exception being handled')
+                continue
+            srcs = _value_sources(fn, cfg, R, exc, cs)
+            kinds = {s[0] for s in srcs}
+            state = sorted({s[1] for s in srcs if s[0] == 'state'})
+            filled = [(a, cs.filled_by(a)) for a in state if cs.filled_by(a)]
+            if filled:
+                a, ws = filled[0]
+                w = next((x for x in ws if cs.on_path(x[0])), ws[0])
+                ctx.bad('R6', cons, f'`{R.text()}` raises an object read out of self.{a}, which `{pf.nsrc(w[3])}` in {w[0]} fills: the lookup fails with something remembered from '
+                        f'EARLIER lookups -- no load was started or joined on its behalf and it was not cancelled (t0: lookup({k}) -> its load fails, allowed; the backend recovers; '
+                        f't1: lookup({k}) -> raises the old exception, 0 loads attempted)', mm.path, R.lineno)
+                continue
+            if state and kinds <= {'state', 'except'}:
+                ctx.ok('R6', cons, f'self.{state[0]} is never filled under this configuration: unreachable')
+                continue
+            if kinds == {'except'}:
+                ctx.ok('R6', cons, 're-raises the exception being handled (by name)')
+                continue
+            if handler is not None and kinds <= {'except', 'fresh'}:
+                ctx.ok('R6', cons, 'raised inside an except handler: converts the failure this lookup has just caught')
+                continue
+            tname = pf.dotted(exc.func) if isinstance(exc, ast.Call) else pf.dotted(exc)
+            if kinds == {'fresh'} and tname in ('AssertionError', 'builtins.AssertionError'):
+                ctx.ok('R6', cons, 'explicit assertion (the assert statement spelled out): invariants are not analysed')
+                continue
+            if kinds != {'fresh'}:
+                v.deferred.append(f'{cons}: provenance of the raised object not recognised ({[s for s in srcs if s[0] == "unknown"][:1]})')
+                continue
+            # a fresh exception outside any handler: what decides that this lookup fails?
+            reads: Set[str] = set()
+            opaque: Set[str] = set()
+            guards = []
+            for t in cfg.nodes:
+                if t.kind != 'test':
+                    continue
+                for lab in ('T', 'F'):
+                    if af.every_path_uses_edge(cfg, R, t, lab):
+                        guards.append(t)
+                        r, c = _self_reads(pf.expand_locals(fn, t.ast), set(cs.methods))
+                        reads |= r
+                        opaque |= c
+            onp = [(a, w) for a in sorted(reads) for w in cs.writers.get(a, []) if w[0] != '__init__' and cs.on_path(w[0])]
+            if onp:
+                a, w = onp[0]
+                ctx.bad('R6', cons, f'`{R.text()}` makes the lookup fail depending on self.{a} (test `{pf.nsrc(guards[0].ast)}`), which `{pf.nsrc(w[3])}` in {w[0]} writes during other '
+                        f'lookups: this lookup fails although no load of its own failed and it was not cancelled (failure memory / circuit breaker / admission limit)', mm.path, R.lineno)
+                continue
+            admin = [a for a in sorted(reads) if any(w[0] != '__init__' for w in cs.writers.get(a, []))]
+            if admin and len(admin) == len(reads) and not opaque:
+                ctx.ok('R6', cons, f'only under administrative state self.{admin[0]} (written outside the lookup path, e.g. shutdown): outside the property')
+                continue
+            v.deferred.append(f'{cons}: a lookup fails here without a failed load or a cancellation; the guard {[pf.nsrc(g.ast) for g in guards]} is not attributable to '
+                              f'shutdown or to other lookups (not analysed)')
 
 
 # --------------------------------------------------------------------------------------
@@ -933,13 +1239,16 @@ def _class_side(ctx: Ctx, m: pf.Module) -> None:
     v = _view(ctx, m)
     ctx.unit('helpers_inlined_into_lookup', len(v.il.inlined))
     ctx.unit('task_bodies', len(v.bodies))
+    cs = _ClassState(v)
     _r1_maps(ctx, m, cls)
     _r1_put_callers(ctx, v)
     _r1_capacity(ctx, v)
+    _r1_side_tables(ctx, v, cs)
     xinfo = _r2_fresh(ctx, v)
     _r2_provenance(ctx, v, xinfo)
     _r3_single_flight(ctx, v)
     _r4_shield(ctx, v)
+    _r6_own_failure(ctx, v, cs)
     if v.deferred:
         raise AnalysisError(v.deferred[0])
 
@@ -950,13 +1259,15 @@ def run(ctx: Ctx) -> None:
                        'registration/deregistration ownership of the in-flight map including cancellation exits and never-started tasks, a closure over every await of a '
                        'shared task, constant propagation of constructor options from the session and JAR sites.')
     ctx.rule('R1', 'every insertion is followed atomically by capacity test + eviction; _put/_remove keep the three maps in step (and in key-function order); '
-                   'no other mutation; per-instance maps', 19)
+                   'no other mutation; per-instance maps; no per-key side table that the capacity does not cover', 20)
     ctx.rule('R2', 'expiry = monotonic_ns + lifetime_ns; a cached value is returned only after, atomically, its expiry was compared with the same clock '
                    'and expired entries removed; every returned / stored value is the awaited load result', 9)
     ctx.rule('R3', 'single flight: registration atomic after the in-flight test, one load call site, waiters start no load, registration removed on every exit '
-                   'of the registering frame (or by a done-callback)', 5)
+                   'of the registering frame (or by a done-callback), and by that frame not before the registered task has ended', 6)
     ctx.rule('R4', 'every await of a task read from the shared _futures map is shielded', 1)
     ctx.rule('R5', 'gear/auth.py and the JAR cache site build the cache with positive constant lifetime/capacity; auth.py only calls lookup', 5)
+    ctx.rule('R6', 'a lookup fails only with its own load\'s failure or its own cancellation: every raise in lookup / the task body re-raises the exception being handled '
+                   '(shutdown guard excepted); nothing remembered in instance state is raised, no failure is decided by what other lookups wrote', 1)
     ctx.assume('asyncio switches only at await; cancelling a coroutine that awaits a Task cancels that Task unless the await goes through asyncio.shield; '
                'a Task cancelled before its first step never executes its body')
     ctx.assume('shutdown() is outside the property; the loader coroutine does not touch the cache')
